@@ -2628,7 +2628,7 @@ def convert_shape_op_to_constant_tensor(op: Operation, arch, nng):
         op.type = Op.Const
 
         # Add size calculation to shape output tensors
-        ofm.values = np.array(ifm.shape)
+        ofm.values = np.array(ifm.shape, ofm.dtype.as_numpy_type())
 
     return op
 
